@@ -529,9 +529,20 @@ func (w *walker) rangeStmt(rs *ast.RangeStmt, following []ast.Stmt, label string
 	key := w.fn() + "|" + mapExpr
 	ord := w.counts[key]
 	w.counts[key]++
-	txt := w.text(rs)
+	txt := normPrint(w.fset, w.info, rs, scopeOf(w.decl, rs), nil)
 	h := sha256.Sum256([]byte(txt))
 	cls, feats := w.classify(rs, following, label)
+	if cls == "collect-then-sort" && len(rs.Body.List) == 1 {
+		// `for k := range m { keys = append(keys, k) }; sort(keys)`: the other spelling of
+		// slices.Sorted(maps.Keys(m)) — also recorded as a sorted iteration
+		if as, ok := rs.Body.List[0].(*ast.AssignStmt); ok && len(as.Rhs) == 1 {
+			if c, ok := as.Rhs[0].(*ast.CallExpr); ok && len(c.Args) == 2 {
+				if k, ok := rs.Key.(*ast.Ident); ok && w.text(c.Args[1]) == k.Name && (rs.Value == nil || w.text(rs.Value) == "_") {
+					w.sorted = append(w.sorted, sortedRange{file: w.file, fn: w.fn(), expr: mapExpr})
+				}
+			}
+		}
+	}
 	w.sites = append(w.sites, site{
 		file: w.file, fn: w.fn(), mapExpr: mapExpr, ord: ord,
 		hash: hex.EncodeToString(h[:8]), cls: cls, feats: feats,
